@@ -49,6 +49,45 @@ def toHeader : Res → Option (Except DecErr Header)
 def runValidate (cfg : PyIR.Cfg) (body : Stmt) (data : Bytes) : Res :=
   exec cfg body 1 none [("p0", .bytes data)] ⟨[], [], [], []⟩
 
+/-! ### the sender: `SendingMessage.__init__` -/
+
+/-- the arguments of `SendingMessage(msgtype, flags, seq, serializer_id, payload, annotations)` -/
+def sendEnv (m : Msg) : Env :=
+  [("p1", .int m.type), ("p2", .int m.flags), ("p3", .int m.seq), ("p4", .int m.serId), ("p5", .bytes m.payload),
+   ("p6", .dict m.anns)]
+
+/-- what the constructor sees of its surroundings: config.COMPRESSION / MAX_MESSAGE_SIZE, zlib.compress and the correlation id
+    in the current context -/
+def sendCfg (cfg : Wire.Cfg) (z : Zlib) (corr : Option Bytes) : PyIR.Cfg :=
+  { useWaitall := false, peercert := false, blocking := true, isSub := fun a b => decide (a = b),
+    maxSize := cfg.maxSize, compression := cfg.compression, zip := z.compress, corr := corr }
+
+/-- one unit of fuel per annotation (the only loop) -/
+def runSendInit (cfg : PyIR.Cfg) (body : Stmt) (m : Msg) : Res :=
+  exec cfg body (m.anns.length + 2) none (sendEnv m) ⟨[], [], [], []⟩
+
+/-- the class of the exception the real constructor raises for each of the model's error kinds -/
+def encErrCls : EncErr → Cls
+  | .tooLarge => .protocolError
+  | .badKeyLen => .protocolError
+  | .structRange => .structError
+  | .nonAscii => .unicodeEncodeError
+  | .badCorr => .valueError          -- outside the domain (a uuid's .bytes is always 16 bytes)
+
+/-- `.data` of the finished message / the class of the exception raised -/
+def toEncoded : Res → Option (Except Cls Bytes)
+  | .normal env _ =>
+    match env.lookup "self.data" with
+    | some (.bytes d) => some (.ok d)
+    | _ => none
+  | .raise (.exc c _ _) _ _ => some (.error c)
+  | _ => none
+
+def encExpected (r : Except EncErr Bytes) : Except Cls Bytes :=
+  match r with
+  | .ok b => .ok b
+  | .error e => .error (encErrCls e)
+
 def sameOutcome : Option (Except DecErr Decoded) → Except DecErr Decoded → Bool
   | some (.ok a), .ok b => a == b
   | some (.error a), .error b => a == b
